@@ -93,6 +93,7 @@ class FnContract:
     modifies_fields: Optional[List[str]] = None
     returns_expr: Optional[str] = None
     task: Optional[str] = None
+    ghost_params: Dict[str, str] = field(default_factory=dict)
 
 
 class Registry:
@@ -153,6 +154,7 @@ class Registry:
         ghost_post: Optional[List[str]] = None,
         returns_expr: Optional[str] = None,
         task: Optional[str] = None,
+        ghost_params: Optional[Dict[str, str]] = None,
     ) -> FnContract:
         short = qualname.split(":")[1]
         rc: Dict[str, List[Clause]] = {}
@@ -184,6 +186,7 @@ class Registry:
             raises_clauses=rc,
             returns_expr=returns_expr,
             task=task,
+            ghost_params=dict(ghost_params or {}),
         )
         for lo in f.loops.values():
             lo["invariant"] = mk_clauses(f"{short}.loopinv", lo.get("invariant"), props)
